@@ -97,8 +97,9 @@ fn smx_image(rng: &mut StdRng, shape: &Value, hostile: &Value) -> Vec<u8> {
     b.extend_from_slice(&[0, 6, 0, 2, 1, 1]);
     b.extend_from_slice(&[0, 0, 0, 0]);
     // the track name: empty, short, one byte short of the field, or filling all 32 bytes (no terminator)
-    let full = b"Westhill International Reversed!";
-    let tlen = [9usize, 0, 31, 32, 1, 32][rng.gen_range(0..6)];
+    // (ASCII, or with Latin-1 bytes: the field is an LFS code page string)
+    let full: &[u8; 32] = if rng.gen_bool(0.4) { b"Circuit d'\xe9t\xe9 - Stra\xdfe \xe0 gauche!" } else { b"Westhill International Reversed!" };
+    let tlen = [9usize, 0, 31, 32, 1, 32, 13][rng.gen_range(0..7)];
     let mut track = full[..tlen].to_vec();
     track.resize(32, 0);
     b.extend(track);
